@@ -211,7 +211,8 @@ func anchorOrigin(ao int) interface{} {
 	case ao == 0:
 		return nil
 	case ao >= 100:
-		return map[string]interface{}{"o": ao - 100}
+		// (member names whose UTF-16 order differs from their UTF-8 / code point order)
+		return map[string]interface{}{"o": ao - 100, "\ufb01": 1, "\U0001f600": 2}
 	default:
 		return fmt.Sprintf("origin-%d", ao)
 	}
